@@ -106,6 +106,7 @@ class EngineBase:
             findings=st.findings,
             progressed=self_stats.get("step.ok", 0),
             faults=sum(v for k, v in self_stats.items() if k.startswith("fault.")),
+            states=sorted(getattr(st, "states", ())),
         )
         return out
 
